@@ -118,6 +118,8 @@ def parse(path):
                     u["includes"].append(v)
                 elif k == "rlimit":
                     u["rlimit"] = v
+                elif k == "generated-by":
+                    u["generated_by"] = v
                 elif k == "note":
                     u["notes"].append(v)
                 elif k == "assume":
